@@ -18,8 +18,9 @@ B = lambda op, l, r: ("bin", op, l, r)
 ADD = lambda name, e: ("assign", name, B("+", V(name), e))
 
 FORMS = ["if", "ifelse_then", "ifelse_else", "elif_first", "elif_second", "elif_else", "while", "while_sym", "from_to",
-         "from_through_step", "from_named", "from_symstep", "from_symbounds", "from_collide", "from_anon_sym"]
-LOOPS = {"while", "while_sym", "from_to", "from_through_step", "from_named", "from_symstep", "from_symbounds", "from_collide", "from_anon_sym"}
+         "from_through_step", "from_named", "from_symstep", "from_symbounds", "from_collide", "from_anon_sym", "from_stepexpr", "from_logged", "from_collide_end"]
+LOOPS = {"while", "while_sym", "from_to", "from_through_step", "from_named", "from_symstep", "from_symbounds", "from_collide", "from_anon_sym", "from_stepexpr", "from_logged",
+         "from_collide_end"}
 LEAVES = ["plain", "break", "continue", "return", "print", "assert", "div", "logic", "call", "rec", "opassign", "nested_fn_loop", "constops"]
 
 
@@ -111,6 +112,18 @@ def build(spine, leaf, variant=0):
             return [("from", B("%", q, I(3)), I(2), True, None, c, go(i + 1, True) + [ADD("acc", V(c)), ("print", V("acc"))])]
         if f == "from_collide":
             return [("from", I(1), I(3), True, None, "k", go(i + 1, True) + body_tail), ADD("acc", V("k"))]
+        if f == "from_stepexpr":
+            # a step that is a compound expression (several instructions; `continue` must land on its first one)
+            s, c = "s%d" % d, "c%d" % d
+            return [("assign", s, I(1)), ("if", [(B("==", q, I(2)), [("assign", s, I(2))])], None),
+                    ("from", I(0), I(4), False, B("-", B("+", V(s), V(s)), V(s)), c, go(i + 1, True) + [ADD("acc", V(c)), ("print", V("acc"))])]
+        if f == "from_logged":
+            # bounds and step with observable side effects: start, then end, once; the step after every iteration
+            c = "c%d" % d
+            return [("from", ("call", "lgb", [I(9001), I(0)]), ("call", "lgb", [I(9002), I(2)]), False, ("call", "lgb", [I(9003), I(1)]), c, go(i + 1, True) + body_tail)]
+        if f == "from_collide_end":
+            # the counter names an existing variable that the end bound mentions
+            return [("from", I(0), V("k"), False, None, "k", go(i + 1, True) + body_tail), ADD("acc", V("k")), ("assign", "k", I(5))]
         if f == "from_anon_sym":
             return [("from", I(0), B("%", q, I(3)), False, None, None, go(i + 1, True) + body_tail)]
         raise ValueError(f)
@@ -129,6 +142,7 @@ HELPER_H = ("def", "h", [("a", "int"), ("q", "int")], "int", [
         ("if", [(B("==", V("j"), B("%", V("q"), I(3))), [("if", [(B(">", V("z"), I(50)), [("return", I(50))])], None), ("return", B("+", V("z"), V("j")))])], None),
         ADD("z", I(1))]),
     ("return", B("-", V("z"), I(1)))])
+HELPER_LB = ("def", "lgb", [("tag", "int"), ("v", "int")], "int", [("print", V("tag")), ("return", V("v"))])
 HELPER_R = ("def", "r", [("n", "int")], "int", [
     ("if", [(B("<=", V("n"), I(0)), [("return", I(0))])], None),
     ("return", B("+", V("n"), ("selfcall", [B("-", V("n"), I(1))])))])
@@ -150,6 +164,8 @@ def program(spine, leaf, variant=0, where="fn"):
         prog.append(HELPER_H)
     if leaf == "rec":
         prog.append(HELPER_R)
+    if "from_logged" in spine:
+        prog.append(HELPER_LB)
     if where == "module":
         # the same statements as module-level code (module frame instead of a function frame, no `return`)
         body = [("assign", "acc", I(0)), ("assign", "k", I(5))] + build(spine, leaf, variant) + [("print", V("acc"))]
